@@ -47,6 +47,13 @@ type wcase struct {
 	// obiutils.CompressStream wrapper (compressed or not) put in front of the
 	// harness stream, as WriteFasta and WriteFastq do, instead of the bare stream.
 	Wfile bool `json:"wfile,omitempty"`
+	// SkipEmpty (skipempty_test.go): the writer is given
+	// OptionsSkipEmptySequence(true), the --skip-empty option of the commands
+	// ("sequences of length equal to zero are suppressed from the output").  Only
+	// then, and only for the writers that honour the option (fasta, fastq,
+	// sequence), Lens may hold records of length 0: they are expected to be left
+	// out of the output, every other record being written once, in order.
+	SkipEmpty bool `json:"skip_empty,omitempty"`
 	// gate (backlog_test.go; never serialised, rebuilt from the compact case):
 	// with several formatting workers, holds back the formatting of chosen
 	// batches until the returned iterator has delivered given others.
@@ -61,6 +68,9 @@ func (c wcase) key() string {
 	k := fmt.Sprint(c.Writer, c.Sizes, c.Arrival, c.Workers, c.Gzip, c.Close, c.SeqLen, c.Qual, c.CSVAuto, c.JitterSeed, c.JitterMaxUs)
 	if c.Lens != nil || c.Wfile {
 		k += fmt.Sprint(c.Lens, c.Wfile)
+	}
+	if c.SkipEmpty {
+		k += " skip_empty"
 	}
 	return k
 }
@@ -110,11 +120,14 @@ func (c wcase) validate() error {
 				return fmt.Errorf("lens[%d] describes %d records, sizes[%d]=%d", k, len(ls), k, c.Sizes[k])
 			}
 			for _, l := range ls {
-				if l < 1 {
-					return fmt.Errorf("record lengths must be >= 1")
+				if l < 0 || (l == 0 && !c.zeroLengthAllowed()) {
+					return fmt.Errorf("record lengths must be >= 1 (0 only with skip_empty on the fasta, fastq and sequence writers)")
 				}
 			}
 		}
+	}
+	if c.SkipEmpty && c.Writer == "chunk" {
+		return fmt.Errorf("skip_empty is not an option of WriteSeqFileChunk")
 	}
 	if c.Wfile && c.Writer != "chunk" {
 		return fmt.Errorf("wfile is an option of the writer \"chunk\" only")
@@ -133,6 +146,12 @@ func (c wcase) validate() error {
 		return fmt.Errorf("WriteSequence on zero batches is outside the generated domain")
 	}
 	return nil
+}
+
+// zeroLengthAllowed: records without any nucleotide are in the domain only when
+// the writer is told to skip them and honours the option.
+func (c wcase) zeroLengthAllowed() bool {
+	return c.SkipEmpty && (c.Writer == "fasta" || c.Writer == "fastq" || c.Writer == "sequence")
 }
 
 // ------------------------------------------------------------------ records
@@ -171,6 +190,10 @@ func (c wcase) expected() []rec {
 	var out []rec
 	for b, sz := range c.Sizes {
 		for i := 0; i < sz; i++ {
+			if c.seqLen(b, i) == 0 {
+				// only generated with skip_empty: suppressed from the output
+				continue
+			}
 			r := rec{ID: recID(b, i), Seq: recSeq(b, i, c.seqLen(b, i)), Batch: b}
 			if c.withQual() {
 				q := recQual(b, i, c.seqLen(b, i))
@@ -352,6 +375,9 @@ func (c wcase) options() []obiformats.WithOption {
 		opts = append(opts, obiformats.OptionCloseFile())
 	} else {
 		opts = append(opts, obiformats.OptionDontCloseFile())
+	}
+	if c.SkipEmpty {
+		opts = append(opts, obiformats.OptionsSkipEmptySequence(true))
 	}
 	if c.Writer == "csv" {
 		if c.CSVAuto {
@@ -705,6 +731,9 @@ func checkWriterObs(c wcase) (observation, error) {
 		}
 		if c.Wfile {
 			shape += ", writing through obiutils.CompressStream"
+		}
+		if c.SkipEmpty {
+			shape += fmt.Sprintf(", OptionsSkipEmptySequence(true), record lengths %v (records of length 0 must be left out, %d records expected in the output)", c.Lens, len(c.expected()))
 		}
 		return obs, fmt.Errorf("%s writer, %d batches with record counts %v%s pushed in order %v (%d formatting worker(s), gzip=%v, closefile=%v; model: chunks %v wait in the buffer, longest drained run %d): %v\n%s",
 			c.Writer, c.n(), c.Sizes, shape, c.Arrival, c.Workers, c.Gzip, c.Close, h.Buffered, h.MaxDrainRun, err, obs.describe())
